@@ -142,7 +142,11 @@ func VH_C04B() {
 		case 5:
 			return NewAttr(key, uint16(65535)), want{key, func(v vJ) bool { return (v.kind == 'n' || v.kind == 's') && v.str == "65535" }, ""}
 		case 6:
-			return NewAttr(key, 1.5), want{key, func(v vJ) bool { return (v.kind == 'n' || v.kind == 's') && v.str == "1.5" }, ""}
+			f := []float64{1.5, float64(float32(0.1)), 1e21, 5e-324, -0.25}[vChoose(5)]
+			return NewAttr(key, f), want{key, func(v vJ) bool {
+				got, err := strconv.ParseFloat(v.str, 64)
+				return (v.kind == 'n' || v.kind == 's') && err == nil && got == f
+			}, ""}
 		case 7:
 			return NewAttr(key, complex(1, 2)), want{key, func(v vJ) bool { return v.kind == 's' }, ""}
 		case 8:
